@@ -370,7 +370,10 @@ class AttributeCollection(MutableMapping[int, Attribute]):
         if Attribute.CODE.INTERNAL_TREAT_AS_WITHDRAW in attributes:
             return attributes
 
-        if Attribute.CODE.AS_PATH in attributes and Attribute.CODE.AS4_PATH in attributes:
+        if negotiated.asn4:
+            # RFC 6793 4.1: a NEW speaker discards AS4_PATH / AS4_AGGREGATOR received from a NEW speaker
+            attributes.pop(Attribute.CODE.AS4_PATH, None)
+        elif Attribute.CODE.AS_PATH in attributes and Attribute.CODE.AS4_PATH in attributes:
             attributes.merge_attributes()
 
         if Attribute.CODE.MP_REACH_NLRI not in attributes and Attribute.CODE.MP_UNREACH_NLRI not in attributes:
@@ -604,7 +607,8 @@ class AttributeCollection(MutableMapping[int, Attribute]):
             segments.append(SEQUENCE(as_seq))
         if as_set:
             segments.append(SET(as_set))
-        aspath = AS2Path.make_aspath(segments)
+        # the merged path carries AS4_PATH's ASNs, which do not fit the 2-byte packing
+        aspath = AS2Path.make_aspath(segments, asn4=True)
         self.add(aspath, key)
 
     def __hash__(self) -> int:
